@@ -512,10 +512,14 @@ fn do_remapping_loop_one_device(driver: &mut impl Driver, layout: Layout, verbos
               if !in_tablet_mode {
                 let mut repeat_send = Vec::new();
                 for key in &keys {
-                  repeat_send.push(Pressed(*key));
+                  if !mapper.is_held_on_output(key) {
+                    repeat_send.push(Pressed(*key));
+                  }
                 }
                 for key in (&keys).iter().rev() {
-                  repeat_send.push(Released(*key));
+                  if !mapper.is_held_on_output(key) {
+                    repeat_send.push(Released(*key));
+                  }
                 }
                 driver.send(&repeat_send)?;
                 working_repeat = WorkingRepeat::Repeating {
